@@ -19,9 +19,14 @@ for p in sorted(os.listdir(f'{V}/coq')):
     src = re.sub(r'\(\*.*?\*\)', '', open(f).read(), flags=re.S)
     names = re.findall(r'^\s*(?:Theorem|Corollary)\s+([A-Za-z0-9_\']+)', src, flags=re.M)
     thm.append(f"* **{p}**: " + ', '.join(f'`{n}`' for n in names))
+metas = []
+for f in sorted(glob.glob(f'{V}/harness/meta/C*.json')):
+    m = json.load(open(f))
+    metas.append(f"#### {m['property_id']} — {m['technique']}\n\n{m['level_text']}\n\n*Trusted base / not verified:* {m['level_note']}\n")
 block = ('<!-- BEGIN GENERATED (tools/refresh_design.py) -->\n\n### 9.2 What each check proves and covers (generated)\n\n' + tab +
          '\nTheorems per property (statements in `coq/Cxx/Props.v`, each closed by `exact` with `Print Assumptions` beneath):\n\n' + '\n'.join(thm) +
-         '\n\n### 9.3 Seeded changes: which checks catch which changes (generated)\n\nEach change was written by an independent sub-agent that saw only the property text and a scratch worktree; '
+         '\n\n### 9.2a What is claimed per property (from harness/meta/Cxx.json, the source of MANIFEST.json)\n\n' + '\n'.join(metas) +
+         '\n### 9.3 Seeded changes: which checks catch which changes (generated)\n\nEach change was written by an independent sub-agent that saw only the property text and a scratch worktree; '
          'kept only after confirming that its demonstration passes on the unmodified tree and fails with the change, and that the existing test suite gives the baseline result. '
          '`tools/run_seeded.sh Cxx seeded/<id>` applies it to a private copy and runs the check; `tools/rerun_seeded.py` re-runs all of them.\n\n' + '\n'.join(rows) +
          '\n\n<!-- END GENERATED -->\n')
